@@ -430,3 +430,5 @@ fn holders_in_slice_body() {
 
 // (a multi-chunk element-wise Vec decode harness -- 8 KiB elements, three items -- was tried for C02/C09 and exceeds the
 // CBMC budget (900 s / 6 GB): the chunk loop is decided by Verus only, see verus/60_seq.rs.in)
+
+// (a two-chunk Vec<[u8;8200]> harness with a fully concrete input was tried as well: CBMC needs > 10 GB for it)
